@@ -221,23 +221,7 @@ var scalarFamilies = []Family{
 	{"scalar:binomial distribution", Scalar, func(g *G) (*Instance, error) {
 		n := g.R.Range(1, 20)
 		d, err := sd.NewBinomialDistribution(g.S("theta", g.prob()), n)
-		in, e := g.inst("scalar:binomial distribution", "plain", true, Scalar, d, err, scalars(float64(g.R.Intn(n+1)), float64(g.R.Intn(n+1))))
-		if in != nil {
-			// the parameter is log(theta) and is exported exactly; the constant
-			// ct = log(1-theta) was computed from the constructor's theta and can
-			// only be recomputed from exp(log theta): relative error of the
-			// recomputed theta <= (|log theta|+1) eps, hence
-			// |d ct| <= eps (theta (|log theta|+1)/(1-theta) + |ct|), entering LogPdf (n-k) times
-			in.LogPdfTol = func(p []float64, probe any, f float64) float64 {
-				const eps = 0x1p-52
-				l, n := p[0], p[1]
-				theta := math.Exp(l)
-				k := probe.(ad.ConstScalar).GetFloat64()
-				dct := eps * (theta*(math.Abs(l)+1)/(1-theta) + math.Abs(math.Log1p(-theta)))
-				return 4*(n-k)*dct + 16*eps*math.Abs(f)
-			}
-		}
-		return in, e
+		return g.inst("scalar:binomial distribution", "plain", true, Scalar, d, err, scalars(float64(g.R.Intn(n+1)), float64(g.R.Intn(n+1))))
 	}},
 	{"scalar:categorical distribution", Scalar, func(g *G) (*Instance, error) {
 		k := g.R.Range(2, 5)
